@@ -660,7 +660,17 @@ protected:
             }
             else
             {
-                start = m_writer.write( chars, start, length);
+                // This is the data of a comment or a processing
+                // instruction, where a character reference is not
+                // recognized: a character the encoding cannot
+                // represent is an error, not something to escape.
+                const size_type     theCount =
+                    isUTF16HighSurrogate(ch) == true &&
+                    start + 1 < length ? 2 : 1;
+
+                m_writer.writePIChars(chars + start, theCount);
+
+                start += theCount - 1;
             }
         }
 
